@@ -191,7 +191,14 @@ deriving Repr
 def exclusions : List Exclusion := [
   ⟨"Geoid", "Geoid::_", "an ordinary (not thread-safe) Geoid caches the last cell and an area; documented in Geoid.hpp.  A Geoid constructed with threadsafe = true skips every one of these writes (see `flagGuarded`)"⟩,
   ⟨"Intersect", "Intersect::_cnt", "the Intersect iteration counters; documented as not thread safe in Intersect.hpp"⟩,
-  ⟨"NearestNeighbor", "NearestNeighbor::_", "the NearestNeighbor search statistics (_mc, _sc, _c1, _k, _cmin, _cmax)"⟩,
+  -- the six statistics members by name (NearestNeighbor.hpp: "the accumulation of statistics is not thread safe"); any other
+  -- mutable member of NearestNeighbor is NOT excluded
+  ⟨"NearestNeighbor", "NearestNeighbor::_mc", "NearestNeighbor search statistics: mean number of distance calculations"⟩,
+  ⟨"NearestNeighbor", "NearestNeighbor::_sc", "NearestNeighbor search statistics: variance accumulator"⟩,
+  ⟨"NearestNeighbor", "NearestNeighbor::_c1", "NearestNeighbor search statistics: distance calculations of the last search"⟩,
+  ⟨"NearestNeighbor", "NearestNeighbor::_k", "NearestNeighbor search statistics: number of searches"⟩,
+  ⟨"NearestNeighbor", "NearestNeighbor::_cmin", "NearestNeighbor search statistics: minimum"⟩,
+  ⟨"NearestNeighbor", "NearestNeighbor::_cmax", "NearestNeighbor search statistics: maximum"⟩,
   ⟨"SphericalEngine", "SphericalEngine::sqrttable()::sqrttable", "growth of the square-root table in SphericalEngine::RootTable (called when coefficients are constructed)"⟩,
   ⟨"GeoCoords", "GeoCoords::_alt_", "GeoCoords is a value class with an alternate-zone cache; it is not in the property's quantifier"⟩ ]
 
@@ -201,7 +208,11 @@ def quantifierClasses : List String := [
   "TransverseMercatorExact", "PolarStereographic", "LambertConformalConic", "AlbersEqualArea", "Geocentric", "LocalCartesian",
   "Ellipsoid", "AuxLatitude", "DAuxLatitude", "AuxAngle", "EllipticFunction", "NormalGravity", "SphericalHarmonic", "SphericalHarmonic1",
   "SphericalHarmonic2", "SphericalEngine", "CircularEngine", "GravityModel", "GravityCircle", "MagneticModel", "MagneticCircle", "Geoid",
-  "UTMUPS", "MGRS", "DMS", "Geohash", "GARS", "Georef", "OSGB", "DST", "kissfft", "Math", "Utility", "Constants", "Accumulator" ]
+  "UTMUPS", "MGRS", "DMS", "Geohash", "GARS", "Georef", "OSGB", "DST", "kissfft", "Math", "Utility", "Constants", "Accumulator",
+  -- "solver or projection object" of the statement beyond the enumerated ones: the projections built on a geodesic solver, the
+  -- polygon-area accumulator's const Test*/Compute functions, and the two classes with documented exclusions (everything they
+  -- write other than the excluded counters / statistics is an offender)
+  "AzimuthalEquidistant", "CassiniSoldner", "Gnomonic", "PolygonAreaT", "Intersect", "NearestNeighbor" ]
 
 /-- `p` is a prefix of `s` (on character lists, so that it reduces under `decide`) -/
 def pre (p s : String) : Bool := p.toList.isPrefixOf s.toList
@@ -254,6 +265,55 @@ def mutableOK (certified : List String) (d : LocDecl) : Bool :=
   match d.kind with
   | .mutableMember => excluded d.name || certified.contains d.name
   | _ => true
+
+/-! ### extraction-side facts beyond the effect table (all regenerated each run) -/
+
+/-- a function-local variable of static storage duration -/
+structure StaticLocal where
+  name : String              -- `Function()::variable`
+  file : String
+  isConst : Bool             -- top-level const or constexpr
+  mutablePointee : Bool      -- a (const) pointer / reference / smart pointer to non-const data
+  init : String              -- "constexpr" | "literal" (constant initialisation) | "dynamic" (C++11 guarded initialisation) | "none"
+deriving DecidableEq, Repr
+
+/-- a non-static data member that is a raw pointer, a reference, an iterator or a std smart pointer -/
+structure PtrMember where
+  name : String
+  type : String
+  pointeeConst : Bool
+  kind : String              -- "pointer" | "reference" | "iterator" | "smart"
+  file : String
+deriving DecidableEq, Repr
+
+/-- `s` ends with `t` -/
+def post (t s : String) : Bool := t.toList.reverse.isPrefixOf s.toList.reverse
+
+/-- a function-local static is immutable after its (constant or C++11-guarded) initialisation: declared const, no
+non-const pointee, initialised where it is declared; or it is a documented exclusion -/
+def staticLocalOK (s : StaticLocal) : Bool :=
+  (s.isConst && !s.mutablePointee && s.init != "none") || excluded s.name
+
+/-- a textual `mutable` declarator `(file, member)` is one of the extracted mutable-member locations -/
+def scanAccounted (locs : List LocDecl) (fm : String × String) : Bool :=
+  locs.any fun d => d.kind == .mutableMember && d.file == fm.1 && post ("::" ++ fm.2) d.name
+
+/-- pointer members whose pointee is not const, and why they are harmless: every use inside const member functions is a call of a
+const member function of the pointee (obligation `no_write_through_pointer_members`) -/
+def certifiedPtrMembers : List String := ["DST::_fft"]
+
+/-- classes that the harness's background threads construct and destroy while other threads use a shared instance (suite ops
+`mtc`, harness/C14.cpp `ctor_pool`); must contain every class whose constructors touch static state (`ctor_static_state_covered`) -/
+def backgroundConstructed : List String := [
+  "Geodesic", "GeodesicExact", "GeodesicLine", "GeodesicLineExact", "Rhumb", "RhumbLine", "TransverseMercator", "TransverseMercatorExact",
+  "PolarStereographic", "LambertConformalConic", "AlbersEqualArea", "Geocentric", "LocalCartesian", "Ellipsoid", "AuxLatitude", "DAuxLatitude",
+  "EllipticFunction", "NormalGravity", "SphericalEngine::coeff", "SphericalHarmonic", "SphericalHarmonic1", "SphericalHarmonic2", "CircularEngine",
+  "GravityModel", "GravityCircle", "MagneticModel", "MagneticCircle", "Geoid", "DST", "AzimuthalEquidistant", "CassiniSoldner", "Gnomonic",
+  "PolygonAreaT", "Accumulator", "GeoCoords", "Intersect", "NearestNeighbor" ]
+
+/-- classes whose const evaluation reads the harmonic square-root table ("SphericalHarmonic (after RootTable)") -/
+def harmonicClasses : List String := ["SphericalEngine", "SphericalHarmonic", "SphericalHarmonic1", "SphericalHarmonic2", "CircularEngine",
+  "GravityModel", "GravityCircle", "MagneticModel", "MagneticCircle"]
 
 /-! ### kissfft's factorisation of the transform length (constructor of `kissfft`, "start factoring out 4's, then 2's, then 3,5,7,9,...") -/
 def nextP (p : Nat) : Nat := if p = 4 then 2 else if p = 2 then 3 else p + 2
